@@ -79,10 +79,8 @@ func (w *world) pool(g *group, seed int64) []pitem {
 		if seen[t] {
 			return
 		}
-		// every pool point must be constructible on the implementation
-		if _, err := g.fromText(t); err != nil {
-			return
-		}
+		// pool points are points of the curve by the reference arithmetic; if the implementation
+		// refuses to build one, the cases using it report that (never silently drop it)
 		seen[t] = true
 		items = append(items, pitem{t, sub, tag})
 	}
